@@ -2,7 +2,7 @@
 from ..runner import Result
 from . import common
 
-PROFILE = {'name': 'c19', 'max_clients': 6, 'hostile_masks': False, 'cfg_variants': [{}, {'default_modes': 'i'}, {'default_modes': 'O'}, {'max_joins': 2}, {'max_joins': 1, 'default_modes': 'i'}], 'weights': {'connect': 10, 'end': 6, 'quit': 3, 'join': 8, 'part': 5, 'kick': 3, 'topic': 2, 'invite': 2, 'cmode': 8, 'umode': 20, 'nick': 8, 'privmsg': 4, 'notice': 2, 'away': 4, 'oper': 8, 'kill': 2, 'wallops': 0.5, 'stats': 0.3, 'die': 0.1, 'squit': 0.1, 'names': 1, 'who': 1, 'whois': 1, 'list': 0.5, 'lusers': 14, 'ison': 9, 'userhost': 9, 'whowas': 0.3, 'chanlist': 0.5, 'cquery': 0.5}, 'nicks': ['al', 'bo', 'cy', 'root', 'adm', 'di', 'ed']}
+PROFILE = {'name': 'c19', 'max_clients': 6, 'hostile_masks': False, 'cfg_variants': [{}, {'default_modes': 'i'}, {'reg_users': ['cy', 'bob']}, {'default_modes': 'O'}, {'max_joins': 2}, {'max_joins': 1, 'default_modes': 'i'}], 'weights': {'connect': 10, 'end': 6, 'quit': 3, 'join': 8, 'part': 5, 'kick': 3, 'topic': 2, 'invite': 2, 'cmode': 8, 'umode': 20, 'nick': 8, 'privmsg': 4, 'notice': 2, 'away': 4, 'oper': 8, 'kill': 2, 'wallops': 0.5, 'stats': 0.3, 'die': 0.1, 'squit': 0.1, 'names': 1, 'who': 1, 'whois': 1, 'list': 0.5, 'lusers': 14, 'ison': 9, 'userhost': 9, 'whowas': 0.3, 'chanlist': 0.5, 'cquery': 0.5}, 'nicks': ['al', 'bo', 'cy', 'root', 'adm', 'di', 'ed']}
 
 
 def run(ctx):
